@@ -336,7 +336,16 @@ theorem loadTndC_pot (d : Bytes) (sauce : Option (Nat × Nat)) :
     apply Pot.bind_le (pot_lift_any _) (by somega) (by somega) (by somega); intro _ _
     split
     · exact pot_fail
-    · have hg0 : (initGeo 80 25 tndLinesCleared sauce).lines = 0 := by rw [initGeo_lines]; simp [tndLinesCleared]
+    · have hg00 : (initGeo 80 25 tndLinesCleared sauce).lines = 0 := by rw [initGeo_lines]; simp [tndLinesCleared]
+      -- the wide-SAUCE rule of the start buffer (C05 repair) changes the widths only
+      have hg0 : (tndGeo sauce).lines = 0 := by
+        unfold tndGeo
+        dsimp only
+        split
+        · split
+          · exact hg00
+          · exact hg00
+        · exact hg00
       have hm : d.size * (d.size - (1 + tndHeader.length)) ≤ d.size * d.size := Nat.mul_le_mul_left _ (by omega)
       apply Pot.mono (tndLoopC_pot d _ (65535 + d.size) d.size (Nat.le_refl _) (Nat.le_refl _) (d.size + 1) (1 + tndHeader.length) ⟨0, 0⟩ _ 1
         (by omega) (by show (0 : Int) + _ < _; omega) (by rw [hg0]; omega)) (by somega) (by rw [hg0]; omega) (by somega)
